@@ -11,7 +11,7 @@ use crate::desc::{s, su, CostDesc};
 use crate::harness::{components_json, finish, Options};
 use crate::json::Json;
 use crate::rng::{hash_str, Fingerprint, Rng};
-use crate::stats::{run_parallel, Acc, Distinct, Report};
+use crate::stats::{run_parallel_then, Acc, Distinct, Report};
 
 /// Execution-time source: a frame pattern with per-job variation and occasional spikes;
 /// zero-cost jobs allowed.
@@ -664,67 +664,69 @@ pub fn run_c14(opt: &Options) -> i32 {
         fps: &fps,
         nontrivial: &nontrivial,
     };
-    let mut acc = run_parallel(cases, opt.jobs, 60, |k, acc, note| c14_item(&sh, k, acc, note));
-    let wall = t0.elapsed().as_secs_f64();
-    let mut cov = Json::obj();
-    cov.set("evaluations", Json::Int(acc.counters.get("runs") as i128));
-    cov.set("distinct_nontrivial", Json::Int(nontrivial.count() as i128));
-    cov.set(
-        "rule",
-        Json::str(
-            "one evaluation = (a) one recorded job-cost history (frame pattern with variation, \
-             spikes and zero-cost jobs) fed to wcet::Curve::from_trace(max_n): every run of n \
-             consecutive jobs, for every n up to the trace length, is summed and compared with \
-             cost_of_jobs(n); then extrapolate(m): no value may rise, the trace must still be \
-             dominated; (b) one query history of 2-5 handles sharing one wcet::ExtrapolatingCurve \
-             (cost_of_jobs / least_wcet / open-advance-drop job_cost_iter) under a seeded scheduler, \
-             every answer compared with a fresh object and an independent min-plus model; (c) the \
-             pure invariants (zero at zero, monotone, iterator sums, least_wcet) of one random \
-             Scalar / Multiframe / Curve / ExtrapolatingCurve instance. distinct = distinct \
-             fingerprints; non-trivial = trace longer than max_n (a), prefix long enough for the \
-             cache to extrapolate (b), not a Scalar (c)",
-        ),
-    );
-    cov.set("distinct_cases", Json::Int(fps.count() as i128));
-    cov.set(
-        "components",
-        components_json(
-            &["wcet::{Scalar, Multiframe, Curve, ExtrapolatingCurve}::{cost_of_jobs, least_wcet, job_cost_iter}, wcet::Curve::{from_trace, extrapolate} (real)"],
-            &["execution-time source / trace recorder, cooperative query-client scheduler, min-plus reference model (stubs, sim/src/wcetsim.rs)"],
-        ),
-    );
-    let out = finish(
-        opt,
-        &mut acc,
-        wall,
-        cov,
-        &[
-            "cost prefixes used for Curve / ExtrapolatingCurve instances are exact run maxima of recorded traces (hence sub-additive and monotone)",
-            "the clauses about zero, monotonicity, iterator sums and least_wcet are pure and ride along",
-        ],
-        &|r: &Report| {
-            let kind = get_line(&r.replay, "kind ").unwrap_or_default();
-            if kind == "clients" {
-                if let Some(h) = parse_history(&r.replay) {
-                    if let Err(f) = run_history(&h) {
-                        let (m, f2) = minimise_history(&h, &f);
-                        let note = get_line(&r.replay, "note ").unwrap_or_default();
-                        return (
-                            replay_text("clients", &history_text(&m), &fail_text(&f2, &m), &format!("{} (minimised from {} operations)", note, h.ops.len())),
-                            format!("cost prefix {:?}: {}", m.prefix, fail_text(&f2, &m)),
-                        );
+    let fin = |mut acc: Acc| -> i32 {
+        let wall = t0.elapsed().as_secs_f64();
+        let mut cov = Json::obj();
+        cov.set("evaluations", Json::Int(acc.counters.get("runs") as i128));
+        cov.set("distinct_nontrivial", Json::Int(nontrivial.count() as i128));
+        cov.set(
+            "rule",
+            Json::str(
+                "one evaluation = (a) one recorded job-cost history (frame pattern with variation, \
+                 spikes and zero-cost jobs) fed to wcet::Curve::from_trace(max_n): every run of n \
+                 consecutive jobs, for every n up to the trace length, is summed and compared with \
+                 cost_of_jobs(n); then extrapolate(m): no value may rise, the trace must still be \
+                 dominated; (b) one query history of 2-5 handles sharing one wcet::ExtrapolatingCurve \
+                 (cost_of_jobs / least_wcet / open-advance-drop job_cost_iter) under a seeded scheduler, \
+                 every answer compared with a fresh object and an independent min-plus model; (c) the \
+                 pure invariants (zero at zero, monotone, iterator sums, least_wcet) of one random \
+                 Scalar / Multiframe / Curve / ExtrapolatingCurve instance. distinct = distinct \
+                 fingerprints; non-trivial = trace longer than max_n (a), prefix long enough for the \
+                 cache to extrapolate (b), not a Scalar (c)",
+            ),
+        );
+        cov.set("distinct_cases", Json::Int(fps.count() as i128));
+        cov.set(
+            "components",
+            components_json(
+                &["wcet::{Scalar, Multiframe, Curve, ExtrapolatingCurve}::{cost_of_jobs, least_wcet, job_cost_iter}, wcet::Curve::{from_trace, extrapolate} (real)"],
+                &["execution-time source / trace recorder, cooperative query-client scheduler, min-plus reference model (stubs, sim/src/wcetsim.rs)"],
+            ),
+        );
+        let out = finish(
+            opt,
+            &mut acc,
+            wall,
+            cov,
+            &[
+                "cost prefixes used for Curve / ExtrapolatingCurve instances are exact run maxima of recorded traces (hence sub-additive and monotone)",
+                "the clauses about zero, monotonicity, iterator sums and least_wcet are pure and ride along",
+            ],
+            &|r: &Report| {
+                let kind = get_line(&r.replay, "kind ").unwrap_or_default();
+                if kind == "clients" {
+                    if let Some(h) = parse_history(&r.replay) {
+                        if let Err(f) = run_history(&h) {
+                            let (m, f2) = minimise_history(&h, &f);
+                            let note = get_line(&r.replay, "note ").unwrap_or_default();
+                            return (
+                                replay_text("clients", &history_text(&m), &fail_text(&f2, &m), &format!("{} (minimised from {} operations)", note, h.ops.len())),
+                                format!("cost prefix {:?}: {}", m.prefix, fail_text(&f2, &m)),
+                            );
+                        }
                     }
                 }
-            }
-            if kind == "trace" {
-                if let Some((small, summary)) = minimise_trace(&r.replay) {
-                    return (small, summary);
+                if kind == "trace" {
+                    if let Some((small, summary)) = minimise_trace(&r.replay) {
+                        return (small, summary);
+                    }
                 }
-            }
-            (r.replay.clone(), r.summary.clone())
-        },
-    );
-    out.exit_code
+                (r.replay.clone(), r.summary.clone())
+            },
+        );
+        out.exit_code
+    };
+    run_parallel_then(cases, opt.jobs, 60, |k, acc, note| c14_item(&sh, k, acc, note), &fin)
 }
 
 fn get_line(text: &str, head: &str) -> Option<String> {
